@@ -965,6 +965,7 @@ def merge_risk(cg, F):
     return False
 
 
+RESERVED_NAMES = {"forall", "exists", "in", "int", "const", "and", "or", "not", "implies", "iff", "xor", "true", "false", "start", "div", "mod", "abs"}
 SUGAR_FEATURES = ("in_start_omitted", "name_omitted", "free_nt", "xp_child", "xp_dd", "infix", "prefix", "neg_literal",
                   "conn:implies", "conn:iff", "conn:xor", "precedence", "in_nonterminal")
 
@@ -1381,6 +1382,15 @@ class SGen:
             extra = [("m" + x[1:], t) for x, t in extra]
             if mx:
                 mx = [[el[0], el[1], "m" + el[2][1:]] if el[0] == "bind" else el for el in mx]
+                if extra and chance(rnd, 0.5):
+                    # a match-expression variable that carries the name the parser would invent first for a free
+                    # nonterminal of its type (<var> -> var): the invented name has to avoid it
+                    x, t = pick(rnd, extra)
+                    bare = t[1:-1]
+                    taken = {n for n, _ in self.closed} | in_scope | {y for y, _ in extra} | {"start", name}
+                    if bare.isidentifier() and bare not in taken and bare not in RESERVED_NAMES:
+                        extra = [(bare if y == x else y, tt) for y, tt in extra]
+                        mx = [[el[0], el[1], bare] if el[0] == "bind" and el[2] == x else el for el in mx]
         env2 = env
         if omit:
             ref = ["nt", T]
